@@ -222,7 +222,7 @@ func runC06(p *P, r *R) {
 	borrow(p, r, "C03", runC03, map[string]string{"R03.1": "R06.6"}, func(o Ob) bool {
 		return constructHas(o, "(*bufferSlice).update", "newBufferSlice", "(*bufferSlice).reset")
 	})
-	borrow(p, r, "C09", runC09, map[string]string{"R09.5": "R06.6", "R09.6": "R06.6"}, nil)
+	borrow(p, r, "C09", runC09, map[string]string{"R09.5": "R06.6", "R09.6": "R06.6", "R09.9": "R06.6"}, nil)
 
 	// ---- R06.4 cursor writers
 	cursorOwners := map[string]bool{
